@@ -212,12 +212,12 @@ func c10Probes() []*RejectCase {
 // ---------------------------------------------------------------------------
 // C14: adversarial naming
 
-var advTypeNames = []string{"Err", "Err2", "Cleanup", "Cleanup2", "Select", "Type", "Func", "Go", "Var", "Range", "Chan", "Map",
+var advTypeNames = []string{"Err", "Err2", "Err3", "Cleanup", "Cleanup2", "Cleanup3", "Cleanup4", "Cleanup5", "Select", "Type", "Func", "Go", "Var", "Range", "Chan", "Map",
 	"Nil", "True", "False", "String", "Error", "Len", "New", "Make", "Int", "Bool", "Any", "Iota", "Append",
 	"Foo", "Foo1", "Foo2", "Foo1_2", "Wire", "Fmt", "Context", "Arg", "V", "Tr", "Ωmega", "Ñu", "Ärger", "App", "Liba", "Libb", "Libc",
 	"WireFooValue", "Foo2_2", "Err_", "X", "T", "Bar", "Bar2", "Baz"}
 
-var advParamNames = []string{"err", "err2", "cleanup", "cleanup2", "_", "", "wire", "tr", "fmt", "context", "liba", "libb", "libc", "app",
+var advParamNames = []string{"err", "err2", "err3", "cleanup", "cleanup2", "cleanup3", "cleanup4", "_", "", "wire", "tr", "fmt", "context", "liba", "libb", "libc", "app",
 	"foo", "foo2", "foo1", "arg", "v", "select2", "string2", "nil", "true", "len", "new", "error2", "ωmega", "x"}
 
 var advPkgNames = []string{"err", "cleanup", "lib", "lib", "wire", "fmt", "context", "foo", "select2", "t", "v", "x", "arg", "err2", "tr"}
